@@ -88,15 +88,22 @@ ImplCancelled == /\ Ev("impl-cancelled") /\ Consume
                  /\ sawcancel' = sawcancel \cup {E.i}
                  /\ Keep(<<invoked, before, started, acked, returned, retres, sendret, results, cancelled, pipes, delivered, presults, sdinv, usershut, sdret>>)
 
-PipeInvoke == /\ Ev("pipe-invoke") /\ Consume /\ pipes' = Append(pipes, <<E.i, E.on>>)
+\* (third component: the answer had not returned when the pipelined call was made)
+PipeInvoke == /\ Ev("pipe-invoke") /\ Consume /\ pipes' = Append(pipes, <<E.i, E.on, E.on \notin returned>>)
               /\ Keep(<<invoked, before, started, acked, returned, retres, sendret, results, cancelled, sawcancel, delivered, presults, sdinv, usershut, sdret>>)
+QueueSize == 2      \* the driver runs every server with AnswerQueueSize 2
 PipesOn(c) == SelectSeq(pipes, LAMBDA x : x[2] = c)
 PipeDelivered == /\ Ev("pipe-delivered") /\ Consume
                  /\ LET c == LookupI(pipes, E.i) IN
                     /\ c # 0 - 1 /\ c \in returned /\ Lookup(retres, c) = "ok"        \* only after the answer returned successfully
                     \* in the order the pipelined calls were made on that answer
-                    /\ LET mine == PipesOn(c)  got == SelectSeq(delivered, LAMBDA x : LookupI(pipes, x) = c) IN
-                       /\ Len(got) < Len(mine) /\ mine[Len(got) + 1][1] = E.i
+                    \* - except that calls which found the answer's queue full (QueueSize entries) are all blocked inside
+                    \* PipelineSend at the same time, i.e. were made concurrently: no order among them, but behind the queued ones
+                    /\ LET mine == PipesOn(c)
+                           idx == CHOOSE k \in 1..Len(mine) : mine[k][1] = E.i
+                           Blocked(k) == mine[k][3] /\ Cardinality({ j \in 1..k : mine[j][3] }) > QueueSize
+                       IN /\ E.i \notin { delivered[k] : k \in 1..Len(delivered) }
+                          /\ \A j \in 1..(idx - 1) : (Blocked(j) /\ Blocked(idx)) \/ mine[j][1] \in { delivered[k] : k \in 1..Len(delivered) }
                  /\ delivered' = Append(delivered, E.i)
                  /\ Keep(<<invoked, before, started, acked, returned, retres, sendret, results, cancelled, sawcancel, pipes, presults, sdinv, usershut, sdret>>)
 PipeResult == /\ Ev("pipe-result") /\ Consume /\ Lookup(presults, E.i) = "none"
